@@ -134,6 +134,14 @@ CLAIMED = {
             'stand-in and a known finding (F4).',
             'DESIGN.md 4/C08', 'LAPACK / kvxopt contracts assumed; counting and sum lemmas stated',
             'contract-based deductive verification (symbolic execution + SMT) plus a labelled bounded stand-in'),
+    'C15': ('proof',
+            'Partial: DAE.store appends one entry at the current time holding a copy (never the live array) of the (selected) '
+            'solver vectors; unpack_np row i = i-th stored entry and t[i] its key (loop invariant); write_npz append protocol '
+            'over a ghost file (file += rows[idx_ptr:], pointer to end; z3 sequences); write_lst line k labels column k; '
+            'Output.in1d / to_output_addr membership positions; TDS.run stores a row iff the thinning rule says so. '
+            'File encoders, loaders and csv replay are not decided.',
+            'DESIGN.md 4/C15', 'NumPy copy/gather/save contracts assumed; time stamps new (C06)',
+            'contract-based deductive verification: symbolic execution with ghost file / row-dict models + SMT'),
 }
 
 ALL = ['C%02d' % i for i in range(1, 21)]
